@@ -47,7 +47,7 @@ impl Prop for C07 {
     }
     fn rule(&self) -> String {
         "Generated: Decimal representations from all coefficient classes, extra weight on values in (-1, 1) (fractions with leading zeros), 39-digit coefficients, non-normalised zero and trailing zeros. \
-         to_string(), String::from(d), format!(\"{}\") and the text inside Debug's Dec!(..) (also when Debug is invoked with precision / width / sign / zero / alternate options, directly or through a tuple / Option) must equal a reference string built from the decimal digits of |coefficient| (integer formatting of std, padding, point insertion); \
+         to_string(), String::from(d), format!(\"{}\"), write! into a user fmt::Write / io::Write, Display through references and Box<dyn Display>, and the text inside Debug's Dec!(..) (also inside a derived struct with {:#?}) (also when Debug is invoked with precision / width / sign / zero / alternate options, directly or through a tuple / Option) must equal a reference string built from the decimal digits of |coefficient| (integer formatting of std, padding, point insertion); \
          Decimal::from_str of that string must return exactly (coefficient, scale); with serde-as-str serde_json::to_string is the JSON string of the same text and from_str of it returns (coefficient, scale). \
          Non-trivial: scale > 0. Distinct: hash of (coefficient, scale)."
             .into()
@@ -143,6 +143,53 @@ impl Prop for C07 {
         outs.push(("Debug {:08.3?}", catch(|| inner(format!("{:08.3?}", d)))));
         outs.push(("Debug in a tuple {:.3?}", catch(|| inner(format!("{:.3?}", (0.5f64, d))))));
         outs.push(("Debug in Some {:10.1?}", catch(|| inner(format!("{:10.1?}", Some(d))))));
+        outs.push(("Debug in a struct {:#?}", catch(|| {
+            #[derive(Debug)]
+            #[allow(dead_code)]
+            struct Holder {
+                amount: Decimal,
+                items: Vec<Decimal>,
+            }
+            let t = format!("{:#?}", Holder { amount: d, items: vec![d] });
+            // both occurrences must show the canonical text
+            let first = inner(t.clone());
+            let rest = t.find("Dec!(").map(|a| t[a + 5..].to_string()).unwrap_or_default();
+            let second = inner(rest);
+            if first == second { first } else { format!("<{first}> vs <{second}>") }
+        })));
+        // other writers: a user fmt::Write that receives the pieces one by one, an io::Write,
+        // Display through a reference / Box / format_args!
+        outs.push(("write! into a chunk-collecting fmt::Write", catch(|| {
+            struct Chunks(Vec<String>);
+            impl std::fmt::Write for Chunks {
+                fn write_str(&mut self, s: &str) -> std::fmt::Result {
+                    self.0.push(s.to_string());
+                    Ok(())
+                }
+            }
+            let mut w = Chunks(Vec::new());
+            match std::fmt::Write::write_fmt(&mut w, format_args!("{}", d)) {
+                Ok(()) => w.0.concat(),
+                Err(_) => "<fmt error>".to_string(),
+            }
+        })));
+        outs.push(("write! into io::Write", catch(|| {
+            let mut v: Vec<u8> = Vec::new();
+            match std::io::Write::write_fmt(&mut v, format_args!("{}", d)) {
+                Ok(()) => String::from_utf8_lossy(&v).into_owned(),
+                Err(_) => "<io error>".to_string(),
+            }
+        })));
+        outs.push(("format!(\"{}\", &&d)", catch(|| format!("{}", &&d))));
+        outs.push(("Box<dyn Display>", catch(|| {
+            let b: Box<dyn std::fmt::Display> = Box::new(d);
+            format!("{b}")
+        })));
+        outs.push(("format!(\"[{}|{}]\")", catch(|| {
+            let t = format!("[{}|{}]", d, d);
+            let half = (t.len() - 3) / 2;
+            if t.len() >= 3 && t[1..1 + half] == t[2 + half..t.len() - 1] { t[1..1 + half].to_string() } else { format!("<{t}>") }
+        })));
         for (name, r) in outs {
             ctx.sub();
             ctx.note(|| format!("{name}: expected {want:?}, observed {r:?}"));
